@@ -197,3 +197,87 @@ func VerifC02Book(v *verifrt.T) {
 	}
 	v.Observe("w0", uint64(len(socks[0].writes)))
 }
+
+// ---------- C02b: one request from bytes ----------
+
+// VerifC02Request: OnSubscribe / OnUnsubscribe / OnPublish on a topic of arbitrary
+// bytes (key "K0" + "/" + up to `topic` symbolic bytes) for a connection that already
+// holds one subscription; the key grants read/write on a/ only. A request that fails
+// parsing or authorisation changes nothing and returns an error (the caller answers
+// with emitter/error/); a successful one acts on exactly the parsed channel.
+func VerifC02Request(v *verifrt.T) {
+	e := c08new(v)
+	k := security.Key(make([]byte, 24))
+	k.SetMaster(1)
+	k.SetContract(7)
+	k.SetSignature(9)
+	k.SetPermissions(security.AllowReadWrite)
+	k.SetTarget("a/")
+	name := e.ciph.add(k)
+	a, asock := hconn(e.svc, 0)
+	b, bsock := hconn(e.svc, 1)
+	// b listens on a/ ; a already holds a/ too
+	v.Assert(e.ps.OnSubscribe(b, []byte(name+"/a/")) == nil, "C02.req.env")
+	v.Assert(e.ps.OnSubscribe(a, []byte(name+"/a/")) == nil, "C02.req.env")
+	count0, nodes0 := e.trie.Count(), e.trie.VerifNodes()
+	holdsA0 := e.trie.VerifHolds(a)
+
+	n := v.Choice(v.Bound("topic")+1, "n")
+	topic := append([]byte(name+"/"), v.Bytes(n, "t")...)
+	orig := append([]byte(nil), topic...)
+	kind := v.Choice(3, "kind")
+	var err error
+	isErr := false
+	switch kind {
+	case 0:
+		r := e.ps.OnSubscribe(a, topic)
+		isErr = r != nil
+	case 1:
+		r := e.ps.OnUnsubscribe(a, topic)
+		isErr = r != nil
+	case 2:
+		r := e.ps.OnPublish(a, &mqtt.Publish{Topic: topic, Payload: []byte{0x42}})
+		isErr = r != nil
+	}
+	_ = err
+	v.Reach("request-served")
+	// what the request text means: the channel part is exactly "a/" (plus optional options)
+	rest := orig[len(name)+1:]
+	isA := len(rest) >= 2 && rest[0] == 'a' && rest[1] == '/' && (len(rest) == 2 || rest[2] == '?')
+	if isErr {
+		v.Assert(e.trie.Count() == count0 && e.trie.VerifNodes() == nodes0 && e.trie.VerifHolds(a) == holdsA0, "C02.req.failed-request-changes-nothing")
+		v.Assert(len(bsock.writes) == 0 && len(asock.writes) == 0, "C02.req.failed-request-delivers-nothing")
+		return
+	}
+	if kind == 0 {
+		// subscribe normalises MQTT-style topics first ("//" -> "/", "#" -> "#/"): a/ may be written /a/, a//, ...
+		r := rest
+		for len(r) > 0 && r[0] == '/' {
+			r = r[1:]
+		}
+		ok := len(r) >= 2 && r[0] == 'a' && r[1] == '/'
+		r2 := r
+		if ok {
+			r2 = r[1:]
+			for len(r2) > 0 && r2[0] == '/' {
+				r2 = r2[1:]
+			}
+		}
+		v.Assert(ok && (len(r2) == 0 || r2[0] == '?'), "C02.req.only-the-keyed-channel-is-served")
+	} else {
+		v.Assert(isA, "C02.req.only-the-keyed-channel-is-served")
+	}
+	switch kind {
+	case 0:
+		v.Assert(e.trie.Count() == count0 && e.trie.VerifHolds(a) == 1, "C02.req.duplicate-subscribe-is-idempotent")
+	case 1:
+		v.Assert(e.trie.VerifHolds(a) == 0 && e.trie.VerifHolds(b) == 1, "C02.req.unsubscribe-removes-only-own")
+	case 2:
+		v.Assert(len(bsock.writes) == 1, "C02.req.publish-reaches-subscriber-once")
+		p, derr := mqtt.DecodePacket(bytes.NewReader(bsock.writes[0]), 65536)
+		v.Assert(derr == nil, "C02.req.delivered-packet-well-formed")
+		pub := p.(*mqtt.Publish)
+		v.Assert(bytes.Equal(pub.Topic, []byte("a/")) && bytes.Equal(pub.Payload, []byte{0x42}), "C02.req.channel-key-stripped-payload-unchanged")
+	}
+	v.Observe("bw", uint64(len(bsock.writes)))
+}
